@@ -9,6 +9,8 @@ if [ ! -f /repo/_build/build.ninja ]; then
   cmake -G Ninja -S /repo -B /repo/_build -DCMAKE_BUILD_TYPE=RelWithDebInfo -DBUILD_TESTING=ON -DCMAKE_CXX_FLAGS=-Wno-error || exit 2
 fi
 cmake --build /repo/_build || exit 2
+# the tests write under $HOME/gstlearn_dir: a private HOME keeps concurrent suites (scratch worktrees) from colliding
+mkdir -p /verif/_build/home && export HOME=/verif/_build/home
 LOG=$(mktemp /tmp/baseline.XXXXXX.log)
 ctest --test-dir /repo/_build -j8 --timeout 900 "$@" > "$LOG" 2>&1
 tail -3 "$LOG"
